@@ -126,8 +126,8 @@ class NASCClient:
 	def set_url(self, url): self.url = url
 	
 	def set_sdk_version(self, major_version, minor_version):
-		self.sdk_major_version = major_version
-		self.sdk_minor_version = minor_version
+		self.sdk_version_major = major_version
+		self.sdk_version_minor = minor_version
 	
 	def set_title(
 		self, title_id, title_version, product_code="----", maker_code="00",
